@@ -192,6 +192,15 @@ def Builder.build (b : Builder) : Option B :=
         some (header.take 14 ++ be16Bytes payloadLength ++ header.drop 16)
       else none
 
+/-- Panic-aware `build`: `header[MINIMUM_LENGTH..]` and `header[LENGTH..LENGTH + 2]` panic on a
+buffer shorter than 16 bytes (theorem `V2.buildP_eq`: no reachable state has one). -/
+def Builder.buildP (b : Builder) : Outcome (Option B) :=
+  match b.writeHeader with
+  | none => .val none
+  | some b' =>
+    let header := b'.header.getD []
+    if header.length < minLen then .panic else .val b.build
+
 /-- A whole call history: the index of the failing call, or the built bytes. -/
 def Builder.runFrom (b : Builder) : List Op → Option Builder
   | [] => some b
